@@ -14,6 +14,7 @@ cd "$WT" || exit 2
 echo "== git status" >> "$LOG"; git status --short >> "$LOG"
 PK=""; FE=""; for c in $CRATES; do PK="$PK -p $c"; case $c in celestia-types|lumina-node) FE="$FE,$c/test-utils";; esac; done
 [ -n "$FE" ] && PK="$PK --features ${FE#,}"
+touch node/src/lib.rs types/src/lib.rs grpc/src/lib.rs utils/src/lib.rs 2>/dev/null  # lumina-node rlib is unhashed: force THIS tree's lib
 echo "== tests with change: cargo nextest run $PK" >> "$LOG"
 # shellcheck disable=SC2086
 cargo nextest run $PK --no-fail-fast --tool-config-file pb:/w/lib/nextest.toml --profile pb --test-threads 8 --offline >> "$B/nextest.log" 2>&1
@@ -36,6 +37,7 @@ PY
 echo "== demo WITH change: $DEMO" >> "$LOG"
 ( eval "$DEMO" ) > "$B/demo_with.log" 2>&1; echo "rc=$?" >> "$LOG"; grep -E "test result|passed|failed|FAIL|panicked" "$B/demo_with.log" | tail -5 >> "$LOG"
 git apply -R "$B/out/patch.diff" || echo "REVERSE-APPLY FAILED" >> "$LOG"
+touch node/src/lib.rs types/src/lib.rs grpc/src/lib.rs utils/src/lib.rs 2>/dev/null
 echo "== demo WITHOUT change" >> "$LOG"
 ( eval "$DEMO" ) > "$B/demo_without.log" 2>&1; echo "rc=$?" >> "$LOG"; grep -E "test result|passed|failed|FAIL|panicked" "$B/demo_without.log" | tail -5 >> "$LOG"
 git apply "$B/out/patch.diff" || echo "RE-APPLY FAILED" >> "$LOG"
